@@ -16,15 +16,21 @@ Elems == << [es |-> 1, ea |-> 1], [es |-> 2, ea |-> 2], [es |-> 3, ea |-> 1], [e
 Num(n) == CASE n = 0 -> "0" [] n = 1 -> "1" [] n = 2 -> "2" [] n = 3 -> "3" [] n = 4 -> "4" [] n = 5 -> "5" [] n = 6 -> "6"
             [] n = 8 -> "8" [] n = 12 -> "12" [] n = 16 -> "16" [] n = 20 -> "20" [] n = 24 -> "24"
 CustomTypes ==
-  { [t |-> "s" \o Num(n), idx |-> n, sized |-> TRUE, words |-> n, fixed |-> 0, es |-> 0, ea |-> 0] : n \in 0..6 }
+  { [t |-> "s" \o Num(n), idx |-> n, sized |-> TRUE, words |-> n, fixed |-> 0, es |-> 0, ea |-> 0, sa |-> 8] : n \in 0..6 }
+  \* sized types with a stricter alignment than the tags' 8 (repr(C, align(16)): 16 and 32 bytes)
+  \cup { [t |-> "a16_" \o Num(n), idx |-> 112 + n, sized |-> TRUE, words |-> n, fixed |-> 0, es |-> 0, ea |-> 0, sa |-> 16] : n \in {2, 6} }
   \cup { [t |-> "d" \o Num(8 + 4 * f) \o "_" \o Num(Elems[e].es), idx |-> 16 + 16 * f + (e - 1), sized |-> FALSE, words |-> 0,
-          fixed |-> 8 + 4 * f, es |-> Elems[e].es, ea |-> Elems[e].ea] : f \in 0..4, e \in 1..6 }
+          fixed |-> 8 + 4 * f, es |-> Elems[e].es, ea |-> Elems[e].ea, sa |-> 8] : f \in 0..4, e \in 1..6 }
 CustomParams == { [ty |-> ty, size |-> s] : ty \in CustomTypes, s \in 8..MaxSize }
+Lead8 == U32Bytes(98) \o U32Bytes(8)
 CustomCase(p) ==
   LET id == U32Bytes(4096 + p.ty.idx)
       tag == [i \in 1..RoundUp8(p.size) |-> IF i <= 4 THEN id[i] ELSE IF i <= 8 THEN U32Bytes(p.size)[i - 4]
                                            ELSE IF i <= p.size THEN FillA(i - 1) ELSE PadByte] IN
-  [mem |-> InfoImage(<<tag, Neighbour>>), al |-> 0,
+  \* a 16-aligned type is only ever looked for at a 16-aligned address (anything else is the caller's misuse):
+  \* an 8-byte tag in front puts the tag at offset 16, and the image length is kept a multiple of 16
+  [mem |-> IF p.ty.sa = 8 THEN InfoImage(<<tag, Neighbour>>)
+           ELSE InfoImage(<<Lead8, tag, Neighbour>> \o (IF (40 + RoundUp8(p.size)) % 16 = 0 THEN <<>> ELSE <<Lead8>>)), al |-> 0,
    calls |-> <<[op |-> "load"], [op |-> "custom_get", id |-> id] @@ p.ty>>,
    desc |-> [area |-> "custom", t |-> p.ty.t, size |-> p.size]]
 =============================================================================
